@@ -181,6 +181,16 @@ func toAccessLog(r Rec, seq int) common.AccessLog {
 	}
 }
 
+// a panic of the code under test is an observation too, not a failure of the executor
+func runBatch(state *discovery.State, batch []common.AccessLog, tree *common.SimpleURLTree) (err error) {
+	defer func() {
+		if r := recover(); r != nil {
+			err = fmt.Errorf("panic: %v", r)
+		}
+	}()
+	return discovery.Run(state, batch, tree)
+}
+
 func execRun(tr *vh.Trace, fam Family, run Run, dir string) {
 	path := filepath.Join(dir, "state.json")
 	os.Remove(path)
@@ -216,7 +226,7 @@ func execRun(tr *vh.Trace, fam Family, run Run, dir string) {
 		}
 		pos += n
 		ev := vh.Ev{"ev": "batch", "n": n}
-		if err := discovery.Run(state, batch, tree); err != nil {
+		if err := runBatch(state, batch, tree); err != nil {
 			ev["err"] = err.Error()
 		}
 		ev["agg"] = snapshot(state.VerifAggregation())
@@ -227,8 +237,14 @@ func execRun(tr *vh.Trace, fam Family, run Run, dir string) {
 			// attribution is a matter of the tree, see DESIGN.md C15)
 			state = &discovery.State{DiscoverFilepath: path}
 			ev := vh.Ev{"ev": "restart"}
-			if err := state.InitializeState(); err != nil {
+			err := state.InitializeState()
+			if err != nil {
+				// the written state cannot be read back: an observation (the plugin refuses to start and the
+				// totals are gone), judged by RoundTrip - the run ends here
 				ev["err"] = err.Error()
+				ev["agg"] = snapshot(nil)
+				tr.Add(ev)
+				break
 			}
 			ev["agg"] = snapshot(state.VerifAggregation())
 			tr.Add(ev)
